@@ -103,6 +103,16 @@ class Engine(Interp, ExecMixin, EvalMixin, CallMixin, BuiltinMixin):
             cc = getattr(cfr, "contract", None)
             short0 = key.split(":")[-1]
             gargs = ((cc.options.get("ghost_args") or {}).get(short0) if cc is not None else None) or {}
+            if not gargs:
+                # the callee is reached through a decorator executed from source (e.g. @catch's wrapper frame, which has no
+                # contract of its own): the ghost arguments are those of the nearest enclosing function under contract
+                for fr_up in reversed(st.frames[:-1]):
+                    cu = getattr(fr_up, "contract", None)
+                    if cu is not None:
+                        gargs = (cu.options.get("ghost_args") or {}).get(short0) or {}
+                        if gargs:
+                            cfr = fr_up
+                        break
             for nm, ts in c.fresh:
                 if nm in gargs and st.spec == 0:
                     extra = {"it": zint(st.ghost["__it"][-1])} if st.ghost.get("__it") else None
